@@ -104,7 +104,9 @@ func (r *armRule) errorCodeSite(x *core.TSCtx) (string, bool) {
 	for _, s := range x.Stack {
 		if core.StaticCallee(s) == ec {
 			arg := s.Common().Args[1]
-			return fkey(s.Parent()) + ":ErrorCode(" + argDescr(arg) + ")", true
+			// keyed by the message arm and the origin of the error, not by the function that happens to
+			// contain the call (a handler may be split or renamed)
+			return armNames[r.arm] + ":ErrorCode(" + argDescr(arg) + ")", true
 		}
 	}
 	return "", false
@@ -360,7 +362,7 @@ func runC06(c *Ctx) {
 	if h := c.P.Func("wire", "handleMessageSizeExceeded"); h != nil {
 		ec := c.P.Func("wire", "ErrorCode")
 		for _, ci := range callsIn(h, calleeIs(ec)) {
-			R.Fail("C06.R1", fkey(h)+":ErrorCode("+argDescr(ci.Common().Args[1])+"):ReadyForQuery-outside-Sync", c.at(ci), "ReadyForQuery is sent only in reply to Sync (or at the end of a simple Query)", "an oversized extended-protocol message is answered with ErrorResponse + ReadyForQuery; Parse(oversized) Sync yields E Z Z")
+			R.Fail("C06.R1", "SizeExceeded:ErrorCode(size-exceeded-error):ReadyForQuery-outside-Sync", c.at(ci), "ReadyForQuery is sent only in reply to Sync (or at the end of a simple Query)", "an oversized extended-protocol message is answered with ErrorResponse + ReadyForQuery; Parse(oversized) Sync yields E Z Z")
 		}
 	}
 
